@@ -22,7 +22,7 @@ from ..seams import quiet
 from .c01 import emittable_kinds, apply_exclusions
 
 PROP = 'C19'
-TIERS = {'quick': 2400, 'thorough': 30000}
+TIERS = {'quick': 2400, 'thorough': 66000}
 RULE = ('each run: 1-3 seeded catalogue circuits and a history of 4-14 operations (hierarchy generation, sub-block module '
         'generation via different ancestors, same/fresh generator, createdStructures, simulation steps, crashing generation '
         'of a broken circuit); non-trivial = some request was repeated at least once after an intervening operation of '
